@@ -802,7 +802,8 @@ fn run_case(spec: &Spec) -> Outcome {
                         if let Term::App(name, ch) = td.get(*t) {
                             let key: (String, Vec<Result<Ch, String>>) =
                                 (name.clone(), ch.iter().map(|c| dag_eval(spec, &d, &td, *c, &mut memo)).collect());
-                            if !rootkeys.insert(format!("{key:?}")) {
+                            // an e-node is (constructor, child classes); only comparable when every child evaluates
+                            if key.1.iter().all(|c| c.is_ok()) && !rootkeys.insert(format!("{key:?}")) {
                                 vio(
                                     &mut out,
                                     "variants-same-enode",
